@@ -310,6 +310,53 @@ func numberOrderRule(c *Ctx, r *Report) {
 		r.Check(ok, "R17d", c.FnName(fn), name+" before float", c.Pos(fl.Pos()), "tried on the same text with base 0 / 64 bits; the float parse is reached only when it failed",
 			"the exact integer parse "+name+" does not precede the float fallback ("+why+"): integers outside its sibling's range are read back as rounded floats")
 	}
+	// … and nothing else stands between the token and the float parse: every JSON number that is no 64-bit integer
+	// (fractions, exponents with e or E, numbers beyond 2^64) must reach it. A filter on the spelling in front of
+	// strconv.ParseFloat decides by itself what a number is, and JSON's grammar is wider than any such shortcut.
+	extra := ""
+	for _, cd := range ExpandConds(DomConds(fl.Block())) {
+		v := cd.V
+		for {
+			u, isU := v.(*ssa.UnOp)
+			if !isU || u.Op != token.NOT {
+				break
+			}
+			v = u.X
+		}
+		okCond := false
+		switch x := v.(type) {
+		case *ssa.BinOp:
+			// err (of a parse or of the scanner) against nil, the token against a keyword
+			for _, o := range []ssa.Value{x.X, x.Y} {
+				if ex, isEx := o.(*ssa.Extract); isEx {
+					if _, isCall := ex.Tuple.(*ssa.Call); isCall {
+						okCond = true
+					}
+				}
+				if _, isStr := ConstString(o); isStr && (x.Op == token.EQL || x.Op == token.NEQ) {
+					okCond = true
+				}
+				// any error against nil (the scanner's error may arrive through the result variable of an inlined helper)
+				if IsNilConst(o) && (typeStr(x.X.Type()) == "error" || typeStr(x.Y.Type()) == "error") {
+					okCond = true
+				}
+			}
+		case *ssa.Extract:
+			// the ok of the keyword classifier
+			if call, isCall := x.Tuple.(*ssa.Call); isCall && call.Call.StaticCallee() != nil && call.Call.StaticCallee().Pkg == fn.Pkg {
+				if baselineHas("parse:" + call.Call.StaticCallee().Name()) {
+					okCond = true // a classifier that is part of the pinned tree (parseBoolValue); a new one is inlined and judged by its tests
+				}
+			}
+		case *ssa.Phi:
+			okCond = true // expanded below into its operands
+		}
+		if !okCond {
+			extra = v.String() + " at " + c.Pos(v.Pos())
+		}
+	}
+	r.Check(extra == "", "R17d", c.FnName(fn), "nothing else in front of the float parse", c.Pos(fl.Pos()), "reached whenever the keyword tests and both integer parses failed",
+		"strconv.ParseFloat is reached only under a further condition on the token ("+extra+"): a JSON number the condition does not let through (an exponent written with E, say) comes back as a string")
 }
 
 // dquoteRules: the double-quote scanner (R17e) hands the scanned literal to the decoder unmodified,
